@@ -34,7 +34,7 @@ VOCAB = ['1', '2.5', '007', '.5', '1E+3', '"a"', '""', '"x""y"', 'A1', '$B$2',
          'foo(', '(', ')', '{', '}', ',', ';', ':', ' ', '  ', '+', '-', '*',
          '/', '^', '&', '%', '=', '<>', '<', '>', '<=', '>=', '@', '!', '$',
          '.', '"', "'", '#', '[', ']', 'E', '1:1', 'A:A', '_xlfn.', 'INDIRECT("A1")',
-         'A1#', '\n', '\t']
+         'A1#', '\n', '\t', 'XFD1', 'A1048576', 'ANCHORARRAY(', 'SINGLE(']
 FOREIGN = ['§', '?', '|', '~', '`', '¤', '\\x01', '\\x7f']
 
 
@@ -160,7 +160,9 @@ def gen_invalid(rng, valid):
     a = rng.choice(('1', '2.5', '"s"', 'TRUE'))
     b = rng.choice(('3', '"t"', 'FALSE', '4.25'))
     if k == 0:
-        return 'unbalanced', '=(' + valid[1:]
+        return 'unbalanced', rng.choice((
+            '=(' + valid[1:], '=%s)+(%s' % (a, b), '=(%s))+((%s)' % (a, b),
+            '=SUM(%s))*((%s)' % (a, b), '=%s)&(%s' % (a, valid[1:])))
     if k == 1:
         return 'unbalanced', valid + ')'
     if k == 2:
@@ -173,16 +175,27 @@ def gen_invalid(rng, valid):
             '=%s%s' % (valid[1:], op), '=%s%s' % (op, valid[1:]),
             '=(%s)%s%s%s' % (valid[1:], op, rng.choice(('*', '/', '^', '&')), a),
             '=SUM(%s%s)' % (a, op), '=%s+' % a, '=%s-' % a,
+            # no left operand after an argument separator
+            '=SUM(%s,%s%s)' % (a, op, b), '=IF(%s,%s%s,%s)' % (a, op, b, a),
+            '={%s,%s%s}' % ('1', rng.choice('*/^&'), '2'), '=(%s,%s%s)' % (a, op, b),
             # the range operator without its first operand
             '=:B2', '=SUM(:B2,%s)' % a, '=%s+:C3' % a, '=SUM($:$B$2)'))
     if k == 5:
         return 'adjacent-operands', rng.choice((
             '=%s %s' % (a, b), '=%s%s' % ('"s"', ' "t"'), '=(%s) %s' % (valid[1:], b),
-            '=%s(%s)' % (a, b), '=SUM(%s %s)' % (a, b), '=%s %s+1' % (a, b)))
+            '=%s(%s)' % (a, b), '=SUM(%s %s)' % (a, b), '=%s %s+1' % (a, b),
+            '=%s\t%s' % (a, b), '=A1 #N/A', '=A1 #VALUE!', '=SUM(A1:B2 #NULL!)',
+            '=B2 #DIV/0!+1', '=A1 #n/a', '=%s #NUM!' % a))
     if k == 6:
         return 'ragged-array', rng.choice((
             '={1,2;3}', '={1;2,3}', '={1,2,3;4,5}', '=SUM({1,2;3,4,5})',
             '={"a";"b","c"}', '={1,2;3,4;5}'))
+    if k == 7 and rng.random() < 0.4:
+        # decimal digits of other scripts are no digits of the grammar
+        return 'foreign-char', rng.choice((
+            '=\u0663+1', '=1.\u0665', '=1E+\u0662', '=\uff11\uff12', '=SUM(\u0967,2)',
+            '=A1\u0663', '=$A$\u0663', '=A\u0661:B2', '=R\u0662C1', '=%s+\u0669' % a,
+            '=SUM(%s,\u06f5)' % b))
     if k == 7:
         ch = rng.choice(FOREIGN).encode().decode('unicode_escape')
         return 'foreign-char', rng.choice((
